@@ -1,8 +1,8 @@
 #!/verif/.venv/bin/python
 # Replay of a solver counterexample against the unmodified code (no shims).
-# property=C04 kernel=param label=legacy:built_identical_timeline
+# property=C04 kernel=param label=abstract:param_decoded_builds
 import sys
 sys.path[:0] = ['/repo' + "/pulser-core", '/repo' + "/pulser-simulation", "/verif"]
 from symx.replay import replay
-sys.exit(replay(check='checks.c04', kernel='param', shape={'program': 'mappable_shift_all', 'codec': 'legacy'},
-                assignment={'v_a0': '513/1024'}, label='legacy:built_identical_timeline'))
+sys.exit(replay(check='checks.c04', kernel='param', shape={'program': 'vars_strided', 'codec': 'abstract'},
+                assignment={}, label='abstract:param_decoded_builds'))
